@@ -168,6 +168,10 @@ def top_keys(delta):
     return ks
 
 
+REJECTED = ["CREATE VIEW v_big AS SELECT a FROM src WHERE (b ^ 2) > 100;", "ALTER TABLE ONLY r0 ADD CONSTRAINT rc CHECK (((id ^ 2.0) < 100.0));",
+            "CREATE TABLE r1 (id int, v int DEFAULT (id ^ 2));"]
+
+
 def gen_cases(tier):
     cases = []
     for bn in BODIES:
@@ -177,6 +181,11 @@ def gen_cases(tier):
     for ci in range(NCAT, len(CAT)):
         for m in (CAT[ci][0], "sql"):
             cases.append({"body": "plain", "clauses": [ci], "mode": m})
+    # wave 8: every clause directly behind a statement the lexer rejects half-way (whatever it had switched on must not reach the table)
+    for ci in range(len(CAT)):
+        for m in (CAT[ci][0], "sql"):
+            for ri in range(len(REJECTED)):
+                cases.append({"body": "plain", "clauses": [ci], "mode": m, "rej": ri})
     # a clause-carrying table behind 1 KiB .. 256 KiB of other statements: its clause delta must be the one it has alone
     for k in range(10, 19 if tier != "thorough" else 21):
         for ei in range(len(ESC)):
@@ -221,7 +230,8 @@ def build(case):
         end = "" if case.get("nosemi") else ";"
         end2 = ";" if case.get("nosemi") == "first" else end
         return BODIES["plain"] + " " + CAT[i][1] + end + "\n" + BODY2 + " " + CAT[j][1] + end2
-    return BODIES[case["body"]] + " " + " ".join(CAT[i][1] for i in case["clauses"]) + ";"
+    pre = REJECTED[case["rej"]] + "\n" if case.get("rej") is not None else ""
+    return pre + BODIES[case["body"]] + " " + " ".join(CAT[i][1] for i in case["clauses"]) + ";"
 
 
 def merge(deltas):
